@@ -13,7 +13,7 @@ LEVEL = "exploration"
 RULE = (
     "agree: BEC2 files (block combinations of C02, with and without a caller-supplied key) are written; every block of the header is unwrapped by independent code "
     "(libcrypto AES container parser, independent ECIES) and all must equal Bec2File.session_key, which must also verify both MACs of every directory entry and "
-    "decrypt encrypted components under the independent model. splice: the model builds headers whose blocks wrap DIFFERENT keys K1 != K2 (every ordered pair of "
+    "decrypt encrypted components under the independent model. splice: the model builds headers whose blocks wrap DIFFERENT keys K1 != K2 (the odd block at a generated position - first, last or between two blocks that agree with each other; every ordered pair of "
     "block kinds), body MACed under K1 or K2; reading with all decryptors must raise. passthrough: read with a strict decryptor subset, write again -> unopened blocks "
     "byte-identical and in the same position, opened blocks re-wrap the same key. history (stateful): sequences of keyless/keyed constructions, repeated writes and "
     "re-reads with a counting RNG and a recording key generator registered through the public registry: every keyless construction draws exactly 16 bytes and uses "
@@ -23,7 +23,7 @@ RULE = (
 ASSUMPTIONS = [
     "freshness is decided as 'the registered RNG / key generator is consulted once per file / per ECC block and its output is what is used'; entropy of os.urandom is out of scope",
 ]
-REQUIRED_CLASSES = ["agree.blocks>=2", "agree.keyless", "agree.ecc", "splice.body=K1", "splice.body=K2", "splice.ecc", "splice.same-tag", "splice.unopened-between", "splice.empty-key", "splice.short-key", "splice.check_cmac=off", "passthrough.unopened>=1", "passthrough.unopened-ends00", "passthrough.unknown-tag-block", "rekey.enc-component", "history.writes>=2", "history.keyless>=2"]
+REQUIRED_CLASSES = ["splice.odd-block-between-agreeing-ones", "agree.blocks>=2", "agree.keyless", "agree.ecc", "splice.body=K1", "splice.body=K2", "splice.ecc", "splice.same-tag", "splice.unopened-between", "splice.empty-key", "splice.short-key", "splice.check_cmac=off", "passthrough.unopened>=1", "passthrough.unopened-ends00", "passthrough.unknown-tag-block", "rekey.enc-component", "history.writes>=2", "history.keyless>=2"]
 
 B2 = sut.B2
 
@@ -140,7 +140,14 @@ def check_splice(case, rec):
         k1 = [b["raw_payload"] for b in blocks if b.get("raw_payload") is not None][0]
         body_key = k2
     else:
-        hb = [_wrap(blocks[0], k1, case["eph"])] + [_wrap(b, k2, case["eph"] + 1) for b in blocks[1:]]
+        # the ODD block (the one wrapping K1) sits at a generated position: first, last, or BETWEEN blocks that agree with each other
+        odd_at = case.get("odd", 0) % len(blocks)
+        opened_idx = [i for i, b in enumerate(blocks) if not b.get("unopened")]
+        if odd_at in opened_idx and 0 < opened_idx.index(odd_at) < len(opened_idx) - 1:
+            rec.cls("splice.odd-block-between-agreeing-ones")
+        if blocks[odd_at].get("unopened"):
+            odd_at = opened_idx[0]
+        hb = [_wrap(b, k1 if i == odd_at else k2, case["eph"] + i) for i, b in enumerate(blocks)]
     comps = [dict(desc=[(0xC3, b"\x02")], blob=case["blob"], actual_len=len(case["blob"]), enc=False)]
     binary = M.bec2_binary(hb, comps, body_key)
     decs = [sut.mk_encryptor(b) for b in blocks if not b.get("unopened")]
@@ -152,7 +159,7 @@ def check_splice(case, rec):
         g = sut.Bec2File.read_file(io.StringIO(M.text([], binary)), decs, check_cmac=bool(case.get("check_cmac", True)))
     except Exception:
         return
-    odd = ([b for b in blocks if b.get("raw_payload") is not None] or blocks[:1])[0]
+    odd = ([b for b in blocks if b.get("raw_payload") is not None] or [blocks[case.get("odd", 0) % len(blocks)]])[0]
     raise Violation("a file whose blocks unwrap to different session keys (%s block: %s, others: %s; body MACed under %s) is accepted with session key %s" % (
         odd["kind"], k1.hex() or "(empty byte string)", k2.hex(), "K2" if body_key == k2 else "K1", bytes(g.session_key).hex()))
 
@@ -375,7 +382,7 @@ def strat_splice(draw, tier="quick"):
     k1, k2 = draw(_key16), draw(_key16)
     if k1 == k2:
         k2 = bytes([k2[0] ^ 1]) + k2[1:]
-    return dict(blocks=blocks, k1=k1, k2=k2, body=draw(st.sampled_from([1, 2])), blob=draw(st.binary(min_size=1, max_size=40)), eph=draw(st.integers(1, 1 << 200)),
+    return dict(blocks=blocks, k1=k1, k2=k2, odd=draw(st.integers(0, 5)), body=draw(st.sampled_from([1, 2])), blob=draw(st.binary(min_size=1, max_size=40)), eph=draw(st.integers(1, 1 << 200)),
                 reverse_decryptors=draw(st.booleans()), check_cmac=draw(st.sampled_from([True, True, False])))
 
 
